@@ -136,7 +136,7 @@ def make_files(payload):
     for mask in range(16):
         present = [c for i, c in enumerate(RAW) if mask >> i & 1]
         for hk in payload['header_kinds']:
-            n = rng.choice([1, 7, 12])
+            n = rng.choice([0, 1, 7, 12, 0])      # empty files are common in light-cone outputs: every requested column still comes back (0 rows)
             # header ppd is a float: an exact integer value, or the cube root of the particle number as a simulation writes it
             # (64**3 ** (1/3) = 3.9999999999999996 * 16: just below the integer; 1728**3 just above)
             box, velz, ppd = rng.choice([(2000.0, 3000.0, 64.0), (500.0, 1250.0, 6912.0), (1024.0, 1.0, 128.0),
@@ -152,18 +152,19 @@ def make_files(payload):
                 header.update(OutputType='TimeSlice', SimSet='AbacusSummit')
             data = {}
             if 'rvint' in present:
-                data['rvint'] = np.array([[rng.randrange(-2 ** 31, 2 ** 31) for _ in range(3)] for _ in range(n)], dtype=np.int32)
+                data['rvint'] = np.array([[rng.randrange(-2 ** 31, 2 ** 31) for _ in range(3)] for _ in range(n)],
+                                         dtype=np.int32).reshape(n, 3)
                 if rng.random() < 0.4:
                     # the raw column stored flat, (3N,) words instead of (N, 3): unpack_rvint documents both layouts; the
                     # file still holds n particles
                     data['rvint'] = data['rvint'].reshape(-1)
             if 'pack9' in present:
                 recs = []
-                if rng.random() < 0.8:
+                if rng.random() < 0.8 and n > 0:
                     recs.append(p9.header_rec(rng, 'f4'))
                 while len(recs) < n:
                     recs.append(p9.header_rec(rng, 'f4') if rng.random() < 0.25 else p9.particle_rec(rng))
-                data['pack9'] = np.array(recs, dtype=np.uint8).reshape(n, 9)
+                data['pack9'] = np.array(recs, dtype=np.uint8).reshape(n, 9) if n else np.zeros((0, 9), dtype=np.uint8)
             for c in ('packedpid', 'pid'):
                 if c in present:
                     data[c] = np.array([rng.getrandbits(64) for _ in range(n)], dtype=np.uint64)
